@@ -45,6 +45,7 @@ type request struct {
 	act        func()
 	label      string
 	pos        string
+	obj        interface{} // object the operation touches (for the independence relation); nil = unknown
 	// result
 	fired   int
 	recvVal Value
@@ -61,6 +62,7 @@ type Goroutine struct {
 	req   *request
 	wake  chan wakeMsg
 	vc    map[int]int
+	seq   int // number of visible operations performed (identifies its pending transition)
 	// user goroutines are those created by the harness / code under test
 	createdBy string
 }
@@ -112,6 +114,7 @@ type Sched struct {
 	events   []string
 	trans    int
 	deadlock bool
+	sleep    map[string]sleepEntry
 }
 
 func newSched(r *Run) *Sched {
@@ -203,6 +206,7 @@ func (r *Run) spawn(fr *frame, pos token.Pos, fnv Value, args []Value) {
 func (s *Sched) park(rq *request) {
 	g := s.cur
 	rq.pos = s.r.where()
+	g.seq++
 	g.req = rq
 	g.state = gParked
 	s.yield <- g
@@ -283,6 +287,10 @@ func (s *Sched) loop(g0 *Goroutine) {
 			return
 		}
 		k := s.choose(trans)
+		if k < 0 {
+			s.aborted = true
+			return
+		}
 		s.fire(trans[k])
 	}
 }
@@ -374,20 +382,145 @@ func (s *Sched) enabled() []transition {
 	return ts
 }
 
+// ---------- sleep sets (partial-order reduction) ----------
+//
+// Two transitions are independent if they move disjoint goroutines and touch no common
+// object (channel, timer, mutex/once/waitgroup key, context; "yield" for environment calls).
+// Unknown objects are dependent with everything. When alternative k is taken at a choice
+// point, the alternatives before it (explored by sibling paths) that are independent of it
+// are put to sleep: they are not taken again until a dependent transition has executed,
+// because doing so would only re-order independent steps of a schedule a sibling explores.
+
+type sleepEntry struct {
+	gs   [2]int
+	objs []interface{}
+}
+
+func (s *Sched) tkey(t transition) string {
+	if t.timer != nil {
+		return fmt.Sprintf("T%d#%d", t.timer.id, t.timer.fired+t.timer.resets)
+	}
+	k := fmt.Sprintf("g%d#%d.%d", t.g.id, t.g.seq, t.ci)
+	if t.h != nil {
+		k += fmt.Sprintf("+g%d#%d.%d", t.h.id, t.h.seq, t.hi)
+	}
+	return k
+}
+
+func (s *Sched) tentry(t transition) sleepEntry {
+	e := sleepEntry{gs: [2]int{-1, -1}}
+	if t.timer != nil {
+		e.objs = []interface{}{t.timer, t.timer.ch}
+		return e
+	}
+	e.gs[0] = t.g.id
+	if t.h != nil {
+		e.gs[1] = t.h.id
+	}
+	rq := t.g.req
+	switch rq.kind {
+	case rqComm:
+		if t.ci >= 0 {
+			ch := rq.cases[t.ci].ch
+			e.objs = []interface{}{ch}
+			if ch.timer != nil {
+				e.objs = append(e.objs, ch.timer)
+			}
+		} else {
+			// default arm: depends on the readiness of every case
+			for _, c := range rq.cases {
+				if c.ch != nil {
+					e.objs = append(e.objs, c.ch)
+				}
+			}
+		}
+	default:
+		if rq.obj == nil {
+			e.objs = nil // unknown
+			e.gs[1] = -2 // marker: dependent with everything
+		} else {
+			e.objs = []interface{}{rq.obj}
+			if tm, ok := rq.obj.(*Timer); ok {
+				e.objs = append(e.objs, tm.ch)
+			}
+		}
+	}
+	return e
+}
+
+func dependent(a, b sleepEntry) bool {
+	if a.gs[1] == -2 || b.gs[1] == -2 {
+		return true
+	}
+	for _, x := range a.gs {
+		if x < 0 {
+			continue
+		}
+		for _, y := range b.gs {
+			if x == y {
+				return true
+			}
+		}
+	}
+	for _, x := range a.objs {
+		for _, y := range b.objs {
+			if x == y {
+				return true
+			}
+		}
+	}
+	return false
+}
+
+// executed updates the sleep set after transition t was taken; earlier = alternatives a sibling explores.
+func (s *Sched) executed(t transition, earlier []transition) {
+	if !s.r.eng.sleepSets {
+		return
+	}
+	te := s.tentry(t)
+	for k, e := range s.sleep {
+		if dependent(e, te) {
+			delete(s.sleep, k)
+		}
+	}
+	for _, o := range earlier {
+		oe := s.tentry(o)
+		if !dependent(oe, te) {
+			if s.sleep == nil {
+				s.sleep = map[string]sleepEntry{}
+			}
+			s.sleep[s.tkey(o)] = oe
+		}
+	}
+}
+
 // choose picks a transition. The base choice is index 0 (keep the last mover
 // running, else lowest goroutine id). Other cases of the same select are free
 // alternatives; moving another goroutine / firing a timer costs one delay.
 func (s *Sched) choose(ts []transition) int {
-	if len(ts) == 1 {
-		return 0
-	}
 	r := s.r
-	base := ts[0]
+	// candidates: not asleep
+	var cand []int
+	for i, t := range ts {
+		if r.eng.sleepSets && len(s.sleep) > 0 {
+			if _, asleep := s.sleep[s.tkey(t)]; asleep {
+				continue
+			}
+		}
+		cand = append(cand, i)
+	}
+	if len(cand) == 0 {
+		// every enabled transition is asleep: this schedule only re-orders independent steps of a sibling's
+		r.res.Outcome = "pruned-sleep"
+		return -1
+	}
+	base := ts[cand[0]]
 	var alts []int
 	var costs []int
-	for i, t := range ts {
+	for n, i := range cand {
+		t := ts[i]
 		cost := 1
-		if i == 0 {
+		if n == 0 {
 			cost = 0
 		} else if base.g != nil && t.g == base.g && t.timer == nil {
 			cost = 0 // another ready case of the same select
@@ -398,11 +531,16 @@ func (s *Sched) choose(ts []transition) int {
 		alts = append(alts, i)
 		costs = append(costs, cost)
 	}
-	if len(alts) == 1 {
-		return alts[0]
+	k := 0
+	if len(alts) > 1 {
+		k = r.pick("sched", len(alts))
+		s.delays += costs[k]
 	}
-	k := r.pick("sched", len(alts))
-	s.delays += costs[k]
+	var earlier []transition
+	for n := 0; n < k; n++ {
+		earlier = append(earlier, ts[alts[n]])
+	}
+	s.executed(ts[alts[k]], earlier)
 	return alts[k]
 }
 
@@ -517,7 +655,7 @@ func (r *Run) chanClose(ch *Chan) {
 	}
 	g := r.sched.cur
 	bad := false
-	rq := &request{kind: rqBlock, label: "close(chan)", act: func() {
+	rq := &request{kind: rqBlock, label: "close(chan)", obj: ch, act: func() {
 		if ch.closed {
 			bad = true
 			return
@@ -564,13 +702,19 @@ func (r *Run) selectOp(fr *frame, in *ssa.Select) Value {
 }
 
 // visible performs act as one scheduling point (non-blocking visible operation).
-func (r *Run) visible(label string, act func()) {
-	r.sched.park(&request{kind: rqBlock, label: label, act: act})
+func (r *Run) visible(label string, act func()) { r.visibleOn(label, nil, act) }
+
+func (r *Run) visibleOn(label string, obj interface{}, act func()) {
+	r.sched.park(&request{kind: rqBlock, label: label, act: act, obj: obj})
 }
 
 // blockUntil parks until cond holds, then performs act atomically.
 func (r *Run) blockUntil(label string, cond func() bool, act func()) {
-	r.sched.park(&request{kind: rqBlock, label: label, cond: cond, act: act})
+	r.blockUntilOn(label, nil, cond, act)
+}
+
+func (r *Run) blockUntilOn(label string, obj interface{}, cond func() bool, act func()) {
+	r.sched.park(&request{kind: rqBlock, label: label, cond: cond, act: act, obj: obj})
 }
 
 // ---------- happens-before race detection ----------
